@@ -504,7 +504,7 @@ def gen_cases(ctx):
                 cases.append(dict(kind='chunk', cfg=[10, connect, read, status, list(GLITCHES)], payload=pi,
                                   fs=[list(s) for s in fs], fsb=[], bucket=rng.choice((0, 0, 1, 2)), verified=False))
     # (b) random longer scripts with every symbol, total budgets, None budgets, other forcelists
-    slow_left = [ctx.scale(45, 600)]
+    slow_left = [ctx.scale(32, 600)]
 
     def rand_sym(p, permanent_ok=True):
         r = rng.random()
@@ -611,7 +611,7 @@ def session_cases(ctx):
         for ops in itertools.product(al, repeat=3):
             cases.append(dict(kind='session', cfg=list(cfg1), ops=[dict(o) for o in ops]))
     # (b) random longer histories: 3 buckets whose state changes now and then, random budgets, all symbols
-    slow_left = [ctx.scale(12, 200)]
+    slow_left = [ctx.scale(9, 200)]
 
     def rand_sym(p, listing=False):
         r = rng.random()
@@ -1167,7 +1167,7 @@ def site_cases(ctx):
                         continue
                     cases.append(dict(kind='site', site=site, cfg=[10, 1, read, status, G],
                                       payload=rng.randrange(len(pls)), fs=[list(x) for x in fs], empty=True))
-    slow_left = [ctx.scale(6, 100)]
+    slow_left = [ctx.scale(4, 100)]
     for _ in range(ctx.scale(120, 2000)):
         opt = lambda hi: rng.choice([None] + list(range(hi + 1)) * 2)
         cfg = [rng.choice((10, 10, None, 2, 3)), rng.choice((0, 1, 2)), opt(3), opt(3),
